@@ -482,6 +482,13 @@ impl<'s> Run<'s> {
             off += 4 + p.len();
         }
         let total = off;
+        let mut expected_full: Vec<u8> = Vec::with_capacity(total);
+        for p in &payloads {
+            expected_full.extend_from_slice(&frame(p));
+        }
+        // C15 speaks about streams of frames: a run in which the (possibly mutated) writer put anything else
+        // into the pipe is inconclusive for the reader side
+        let stream_is_frames = |pipe: &Rc<RefCell<PipeCore>>| expected_full.starts_with(&pipe.borrow().carried);
         let pipe = Rc::new(RefCell::new(PipeCore {
             buf: Default::default(),
             cap: (s.cap as usize).max(1),
@@ -539,7 +546,7 @@ impl<'s> Run<'s> {
                         Side::Writer => writer_stuck,
                         Side::Reader => reader_stuck,
                     };
-                    if !mine {
+                    if !mine || (side == Side::Reader && !stream_is_frames(&pipe)) {
                         // the other party stopped (only possible when the other party is broken): inconclusive for this side
                         return Ok(());
                     }
@@ -576,7 +583,7 @@ impl<'s> Run<'s> {
             if polls > budget {
                 // a livelock belongs to the task that keeps being polled
                 let culprit = if per_task[0] >= per_task[1] { Side::Writer } else { Side::Reader };
-                if culprit != side {
+                if culprit != side || (side == Side::Reader && !stream_is_frames(&pipe)) {
                     return Ok(());
                 }
                 return Err(Violation::new("progress", format!("more than {budget} task polls without both tasks finishing (writer {} polls, reader {})", per_task[0], per_task[1])));
@@ -651,6 +658,9 @@ impl<'s> Run<'s> {
                 Ok(())
             }
             Side::Reader => {
+                if !expected_full.starts_with(&p.carried) {
+                    return Ok(());
+                }
                 // model: parse what the pipe carried
                 let carried = &p.carried;
                 let mut expected: Vec<(String, usize)> = Vec::new();
